@@ -9,7 +9,7 @@ from __future__ import annotations
 
 import random
 
-from .. import build, gen, monitors, oracle as O
+from .. import build, gen, monitors, oracle as O, probes
 from . import common as K
 
 ID = "C01"
@@ -32,8 +32,12 @@ N_PROG = {"quick": 64, "thorough": 1600}
 N_POINTS = {"quick": 6, "thorough": 12}
 
 
+N_PROBE = {"quick": 6, "thorough": 60}
+
+
 def plan(tier, seed):
-    return [{"uid": f"p{i}", "i": i} for i in range(N_PROG[tier])]
+    units = [{"uid": f"probe{i}", "kind": "probe", "i": i} for i in range(N_PROBE[tier])]
+    return units + [{"uid": f"p{i}", "i": i} for i in range(N_PROG[tier])]
 
 
 def unit_timeout(tier):
@@ -56,9 +60,47 @@ def gen_defn(rng, tier):
                        dt_names=("dt", "dt", "T_s", "h_step"))
 
 
+def run_probe(unit, ctx):
+    """Exp-overflow region (known finding cse-simplify:exp-overflow), probed on purpose."""
+    R = K.Result()
+    rng = K.unit_rng(ID, ctx["seed"], unit)
+    if unit["i"] == 0:
+        defn, pts = probes.witness_defn(), probes.witness_points()
+        defn = dict(defn, sensors={}, sensor_noises={}, reading_keys={})
+    else:
+        defn = probes.random_probe_defn(rng)
+        pts = [probes.probe_point(rng, defn) for _ in range(10)]
+    orc = O.Oracle(defn)
+    try:
+        m_on = build.Built(defn).py_model(common_subexpression_elimination=True)
+        m_off = build.Built(defn).py_model(common_subexpression_elimination=False)
+    except Exception as e:  # noqa: BLE001
+        R.add([K.V(K.exc_key("compile", e), f"python.compile raised on a valid definition: {K.exc_text(e)}", defn=defn)])
+        return R.out()
+    for pt in pts:
+        env = orc.env(pt)
+        ref = orc.model(env)
+        outs = {}
+        for tag, m in (("on", m_on), ("off", m_off)):
+            st = m.State(**{s: pt[s] for s in defn["state"]})
+            ct = m.Control(**{c: pt[c] for c in defn["control"]})
+            outs[tag] = monitors.vec_dict(m.model(float(pt[defn["dt"]]), st, ct))
+        R.evals += 1
+        for s, (rv, sc) in ref.items():
+            verdict, txt = probes.classify(defn, env, outs["on"][s], outs["off"][s], rv, sc)
+            R.stats.inc(f"probe_{verdict}")
+            if verdict == "known":
+                R.add([K.V(probes.KEY, f"Model.model[{s}]: {txt}", defn=defn, point=pt)])
+            elif verdict == "violation":
+                R.add([K.V("model:value", f"Model.model[{s}] (probe region): {txt}", defn=defn, point=pt)])
+    return R.out()
+
+
 def run_unit(unit, ctx):
     from formak import python  # noqa: F401
 
+    if unit.get("kind") == "probe":
+        return run_probe(unit, ctx)
     R = K.Result()
     rng = K.unit_rng(ID, ctx["seed"], unit)
     defn = gen_defn(rng, ctx["tier"])
